@@ -48,7 +48,7 @@ Code the property is anchored in: {files}
 What I need from you:
 1. A small, plausible source change (the kind of slip a maintainer could make in a refactor or feature patch — a few lines, not sabotage-looking) in the generator sources (internal/..., cmd/..., http/...) that makes the property FALSE for some inputs. Prefer a defect that needs something specific to manifest: an unusual but legitimate input, a particular combination of annotations/options, a multi-step sequence, a particular interleaving, or two cooperating sites that each look fine alone. Do NOT pick something that every ordinary use would expose at once, and do not simply delete a feature.{extra}
 2. The change must compile (`go build ./...`) and the pinned test suite must still pass: run `/tmp/seed/tools/baseline.sh {wt}` (it must print 373/373). Tests that need `protoc` fail in this sandbox before and after; they are not part of the baseline. Do not edit existing tests or testdata.
-3. A demonstration that FAILS with your change and PASSES without it: a Go test file or small Go program placed under {demo} (create that directory; it is outside the worktree). It must be runnable offline. State the exact command. Verify both directions yourself (use `git stash` in the worktree to check the unchanged behaviour, then `git stash pop`).
+3. A demonstration that FAILS with your change and PASSES without it: a Go test file or small Go program placed under {demo} (create that directory; it is outside the worktree). It must be runnable offline. State the exact command. Verify both directions yourself (save your change with `git diff > /tmp/seed/<your-id>.patch`, undo it with `git apply -R`, check the unchanged behaviour, re-apply with `git apply`; do NOT use `git stash`: the stash is shared between worktrees and other people work in sibling worktrees).
 4. Leave the change as uncommitted modifications in the worktree. Finish with a short report: files/lines changed, why it breaks the property, what exactly is needed for it to manifest, and the commands you ran with their results.
 
 Sandbox facts you need:
